@@ -913,7 +913,7 @@ func k2Run(r *vk.Run, prop string, scenarios []k2Scenario, c09, c13 bool, rule s
 	r.Assume(
 		"skchia keeper built in-package with the fields NewSpaceKeeperChiaPoS sets; the index is filled with WorkSpace values over a fake massdb.MassDB (BLS keys from the library's KeyGen, GetQualities returns one quality and counts calls) instead of plot files; configuration through the real ConfigureByFlags(SFAll, plot, mine)",
 		"family (a) production-reachable: all spaces Ready (the only state NewWorkSpace produces), cfg none/plot/mine; family (b) unreachable-registered: some spaces Registered - not reachable from NewWorkSpace, explored because the plotter machinery is in the code; fingerprints raised there contain /unreachable-registered/",
-		"API bodies hold stateLock for their whole body (PlotWS: read lock) and the plotter holds it for steps 1 and 3, so gate granularity (idle, popped, step1.done, plot.returned, space.done) covers every order observable through states; unsynchronised accesses between gates (GetQualities reads workSpaceList without the lock; wg.Add inside the plotter goroutine) are not enumerated",
+		"API bodies hold stateLock for their whole body (PlotWS: read lock) and the plotter holds it for steps 1 and 3, so gate granularity (queue.nonempty, popped, step1.done, plot.returned, space.done, idle) covers every order observable through states; unsynchronised accesses between gates (GetQualities reads workSpaceList without the lock; wg.Add inside the plotter goroutine) are not enumerated",
 		"quiescence from runtime.Stack wait reasons; ants pool housekeeping goroutines ignored; request channel capacities 0-2 (C13) stand for 'however many requests are outstanding' (production: 1024); in C09 capacity 8 and at most max_requests_waiting_in_channel queued requests so that no request blocks",
 		fmt.Sprintf("bounds: %d scenarios, each searched to the depth listed under coverage.scenarios (or to the fixpoint of its canonical state space if that comes first)", len(scenarios)))
 	if _, _, child := r.Shard(); child {
@@ -1139,7 +1139,7 @@ func TestVerifC09Chia(t *testing.T) {
 		add("b", "RRY", "none", 6, 2, k2Alphabet(3, nil, false, false, nil))
 	}
 	k2Run(r, "C09", k2Only(scs), true, false,
-		"explicit-state search (BFS by replay on fresh instances, canonical-state pruning) over the real skchia.SpaceKeeper with a fake plot database: actions = ActOnWorkSpace(plot/mine/stop/remove/delete) on each of 2-3 workspaces and on an unknown id, ActOnWorkSpaces for several flag sets, keeper Stop/Start, and the release of each plotter gate (idle, popped, step1.done, plot.returned, space.done); reference model = map workspace -> (state, used, deleted, asked) following the documented transition table; in every reached state: exactly-one-state and index consistency, state/used/list agree with the model, at most one plotting, all 16 flag filters agree between WorkSpaceIDs/WorkSpaceInfos/model, GetQualities/GetQualitiesReader(SFMining) offer exactly the used mining spaces (and for every other flag set exactly the spaces in those states; a stopped keeper offers nothing), returned errors equal the model's, every plotter-made state change is a documented edge, a stopped or never-asked space does not enter plotting/mining until asked again")
+		"explicit-state search (BFS by replay on fresh instances, canonical-state pruning) over the real skchia.SpaceKeeper with a fake plot database: actions = ActOnWorkSpace(plot/mine/stop/remove/delete) on each of 2-3 workspaces and on an unknown id, ActOnWorkSpaces for several flag sets, keeper Stop/Start, and the release of each plotter gate (queue.nonempty, popped, step1.done, plot.returned, space.done, idle); reference model = map workspace -> (state, used, deleted, asked) following the documented transition table; in every reached state: exactly-one-state and index consistency, state/used/list agree with the model, at most one plotting, all 16 flag filters agree between WorkSpaceIDs/WorkSpaceInfos/model, GetQualities/GetQualitiesReader(SFMining) offer exactly the used mining spaces (and for every other flag set exactly the spaces in those states; a stopped keeper offers nothing), returned errors equal the model's, every plotter-made state change is a documented edge, a stopped or never-asked space does not enter plotting/mining until asked again")
 }
 
 func TestVerifC13Chia(t *testing.T) {
